@@ -27,8 +27,13 @@ class WAPProtocol(HTTPProtocol):
 
         waptop = self.config.get("protocols.wap.WAPProtocol", "waptop")
         self.waptop = waptop
-        if self.requestparts[1].startswith(waptop):
-            # If it starts with waptop, *guaranteed* to be wap.
+        path = self.requestparts[1]
+        if path.startswith(waptop) and path[len(waptop) : len(waptop) + 1] in (
+            "",
+            "/",
+            "?",
+        ):
+            # If it is below waptop, *guaranteed* to be wap.
             self.requestparts[1] = self.requestparts[1][len(waptop) :]
             return True
 
